@@ -159,7 +159,11 @@ def summary(cid):
 def observe(rows):
     try:
         cid = interface.Cid()
-        cid.read("c09.csv", [list(r) for r in rows])
+        given = [list(r) for r in rows]
+        cid.read("c09.csv", given)
+        if given != [list(r) for r in rows]:
+            # the rows belong to the caller (a reader may hand out the same list more than once)
+            return {"leak": "rows changed", "msg": "Cid.read changed the rows it was given: %r" % ([g for g, r in zip(given, rows) if g != list(r)][:2],)}
         return {"accepted": summary(cid)}
     except errors.InterfaceError as e:
         m = ROW_RE.search(str(e))
@@ -285,9 +289,46 @@ def make_case(inp):
             "nontrivial": inp["kind"] != "base", "tags": tags}
 
 
+def observe_stream(rows, consumed):
+    """the CID handed over as an open text stream of which the caller has already read something (a banner line): the CID
+    is what follows; also as a file the caller opened"""
+    import csv
+    import io
+    import os
+    import tempfile
+    body = io.StringIO(newline="")
+    csv.writer(body).writerows(rows)
+    text = consumed + body.getvalue()
+    out = {}
+    stream = io.StringIO(text, newline="")
+    stream.read(len(consumed))
+    fd, path = tempfile.mkstemp(suffix=".csv")
+    os.close(fd)
+    try:
+        with open(path, "w", encoding="utf-8", newline="") as fh:
+            fh.write(text)
+        with open(path, "r", encoding="utf-8", newline="") as fh:
+            fh.read(len(consumed))
+            for name, source in (("stream", stream), ("file", fh)):
+                try:
+                    out[name] = {"accepted": summary(interface.Cid(source))}
+                except errors.InterfaceError as e:
+                    out[name] = {"rejected": str(e)[:160]}
+                except Exception as e:  # noqa
+                    out[name] = {"leak": type(e).__name__ + ": " + str(e)[:120]}
+    finally:
+        os.remove(path)
+    return out
+
+
 def direct_oracle(inp, obs):
     if inp["kind"] == "keywords":
         return None
+    if inp["kind"] == "base" and "accepted" in obs and not inp.get("late") and all(ord(ch) < 128 for r in inp["rows"] for c in r for ch in c):
+        for consumed in ("", "a banner line, not part of the CID\r\n"):
+            for name, got in observe_stream(inp["rows"], consumed).items():
+                if got != {"accepted": obs["accepted"]}:
+                    return "the same CID as an open %s (%d characters already read by the caller) gives %r" % (name, len(consumed), got)
     if "leak" in obs:
         if inp.get("hostile"):
             return None
